@@ -306,3 +306,75 @@ class C12_LogReturns(LogReturns):
 
 class C12_Paths(Paths):
     pass
+
+
+class ConfiguredParameters(Harness):
+    """the parameters a configuration gives per market group are the ones the generator is set up with."""
+    name = "ConfiguredParameters"
+    title = "real SequentialRunner._setup(): initial value, drift and volatility registered per market = the group's configuration"
+    what_symbolic = ("the order in which three market groups are listed and, per group, whether it gives a drift / a "
+                     "volatility / its own fundamentalPrice (solver choices, enumerated by the engine)")
+    nontrivial_event = "a group without a drift or volatility of its own was listed after one that has them"
+    reach = ("nontrivial", "zero-volatility-path-checked")
+    bounds = {"quick": "3 groups (one of 2 markets), every listing order, every subset of {drift, volatility, fundamentalPrice} "
+                       "per group for two of them; 3 steps of the zero-volatility markets' paths",
+              "thorough": "same"}
+    agreement_runs = 2
+
+    def cases(self, tier):
+        return [{"perm": list(p)} for p in itertools.permutations(range(3))]
+
+    def run(self, g, case):
+        import math
+        from . import rn
+        base = [("GA", 300, 0.002, 0.01), ("GB", 500, -0.001, 0.02), ("GC", 700, 0.003, 0.0)]
+        groups, want = {}, {}
+        for i, (nme, price, drift, vol) in enumerate(base):
+            st = {"class": "Market", "tickSize": 1, "marketPrice": price}
+            if nme == "GB":
+                st["numMarkets"] = 2
+            has_d = g.choice(f"{nme}_drift", 2) == 1 if nme != "GA" else True
+            has_v = g.choice(f"{nme}_vol", 2) == 1 if nme != "GA" else True
+            has_f = g.choice(f"{nme}_fund", 2) == 1 if nme != "GA" else False
+            if has_d:
+                st["fundamentalDrift"] = drift
+            if has_v:
+                st["fundamentalVolatility"] = vol
+            if has_f:
+                st["fundamentalPrice"] = price + 5
+            groups[nme] = st
+            want[nme] = (float(price + 5 if has_f else price), drift if has_d else 0.0, vol if has_v else 0.0)
+        order = [base[i][0] for i in case["perm"]]
+        markets = {n: groups[n] for n in order}
+        st = rn.base_settings(n_agents=1, sessions=[rn.session(0, 3, False, False)], markets=markets)
+        st["A"]["markets"] = [order[0]]
+        ctx = rn.make_run(g, st, {"acts": ["none"]})
+        sim = ctx.sim
+        f = sim.fundamentals
+        seen_param = False
+        for nme in order:
+            ms = sim.markets_group_name2market[nme] if hasattr(sim, "markets_group_name2market") else \
+                [m for m in sim.markets if m.name.startswith(nme)]
+            g.require(len(ms) == (2 if nme == "GB" else 1), "C12.harness:group-size")
+            w = want[nme]
+            if seen_param and (w[1] == 0.0 or w[2] == 0.0):
+                g.note("nontrivial")
+            if w[1] != 0.0 or w[2] != 0.0:
+                seen_param = True
+            for m in ms:
+                got = (f.initials[m.market_id], f.drifts[m.market_id], f.volatilities[m.market_id])
+                g.require(got == w, "C12.registered-parameters!=configuration",
+                          f"market {m.name}: initial/drift/volatility registered as {got}, configured {w}")
+        ctx.runner._run()
+        for nme in order:
+            w = want[nme]
+            if w[2] == 0.0:
+                for m in [m for m in sim.markets if m.name.startswith(nme)]:
+                    for t in range(3):
+                        g.require(abs(m.get_fundamental_price(t) - w[0] * math.exp(w[1] * t)) <= 1e-9 * w[0],
+                                  "C12.zero-volatility-path!=initial*exp(drift*t)", f"{m.name} t={t}")
+                    g.note("zero-volatility-path-checked")
+
+
+class C12_ConfiguredParameters(ConfiguredParameters):
+    pass
